@@ -13,7 +13,7 @@ cleanup() { git -C /repo worktree remove --force "$WT"; }
 trap cleanup EXIT
 cd "$WT"
 DEMO_PATH=$(python3 -c "import json;print(json.load(open('$SRC/meta.json'))['demo_path'])")
-DEMO_CMD=$(python3 -c "import json;print(json.load(open('$SRC/meta.json'))['demo_cmd'])")
+DEMO_CMD=$(python3 -c "import json;import re;print(re.sub(r'\s+\(.*$','',json.load(open('$SRC/meta.json'))['demo_cmd']))")
 PKGS=$(grep '^+++ b/' "$SRC/patch.diff" | sed 's#+++ b/##' | xargs -n1 dirname | sort -u | sed 's#^#./#' | tr '\n' ' ')
 echo "== seed $ID pkgs: $PKGS demo: $DEMO_PATH :: $DEMO_CMD"
 git apply "$SRC/patch.diff" || { echo "RESULT $ID patch-does-not-apply"; exit 1; }
